@@ -76,6 +76,7 @@ HandleResult(hasKey, key, tagH) ==
           ELSE des' = des /\ aged' = aged
 
 After3(f, tagS, tagR) ==
+  /\ V("OUTCOME", ~Has("obspanic") /\ ~Has("rdout"), "a look-up made right after the call (observation sweep / read through the returned handle) panicked")
   /\ (hasSnap => /\ Structure(T', peak', cap0)
                  /\ V(tagR, Refines(T', f), <<"stored entries", IF RangeOK(T') THEN Contents(T') ELSE "unreadable", "reference", Graph(f)>>)
                  /\ V(tagS, SlotsOK(T', f, des'), <<"an issued handle no longer is the slot of its entry", des'>>))
